@@ -957,6 +957,25 @@ def run(ctx):
     import time as _t
     t_gen = _t.time() - ctx.t0
     res = ev.run(cases)
+    if res["errors"]:
+        # a shard whose coqc died (machine overloaded: killed / timed out) is evaluated once more
+        bounds, start, size = [], 0, 0
+        for i, c in enumerate(cases):
+            if i > start and (i - start >= ev.shard or size + len(c) > ev.max_chars):
+                bounds.append((start, i)); start, size = i, 0
+            size += len(c)
+        bounds.append((start, len(cases)))
+        ends = dict(bounds)
+        still = []
+        for si, err in res["errors"]:
+            if si not in ends:
+                still.append((si, err)); continue
+            r2 = ev.run(cases[si:ends[si]])
+            res["evaluated"] += r2["evaluated"]
+            res["failing"] += [si + j for j in r2["failing"]]
+            still += [(si + sj, e2) for sj, e2 in r2["errors"]]
+        res["errors"] = still
+        ctx.notes.append("re-evaluated the case shard(s) whose coqc process died; %d still failing" % len(still))
     ctx.notes.append("timing: proof+generation %.1fs, coq evaluation %.1fs, %d cases, %d chars" % (t_gen, _t.time() - ctx.t0 - t_gen, len(cases), sum(map(len, cases))))
     ctx.coverage["traces_validated_against_impl"] = res["evaluated"]
     ctx.coverage["disagreements_checked"] = len(res["failing"])
